@@ -357,6 +357,10 @@ fn show(v: &Option<Sv>) -> String {
     }
 }
 
+fn gen_single(_ty: &str, v: &Option<Sv>, raw: &Sv) -> (Vec<Option<Sv>>, Vec<Sv>) {
+    (vec![v.clone()], vec![raw.clone()])
+}
+
 fn run_binary_case(rng: &mut Rng, op: &str, ta: &str, tb: &str, extreme: bool) -> Outcome {
     let n = *rng.pick(&[0usize, 1, 2, 63, 64, 65, 130, 200, 17]);
     let null_pct = *rng.pick(&[0u64, 10, 30, 90]);
@@ -394,10 +398,27 @@ fn run_binary_case(rng: &mut Rng, op: &str, ta: &str, tb: &str, extreme: bool) -
                 Outcome { sig: None, rows: n, modelled: true }
             } else if n == 0 || exp.is_empty() {
                 Outcome { sig: None, rows: 0, modelled: false }
-            } else {
+            } else if matches!(e, risinglight::types::ConvertError::NoBinaryOp(..)) {
                 // the kernel rejects the type combination: not accepted, nothing to judge
-                let _ = e;
                 Outcome { sig: None, rows: 0, modelled: false }
+            } else {
+                // the combination is accepted and no row of the batch has to fail: the error is spurious (and fails every
+                // other row of the batch with it)
+                let culprit = (0..n).find(|&i| {
+                    let (x, rx) = gen_single(ta, &va[i], &ra[i]);
+                    let (y, ry) = gen_single(tb, &vb[i], &rb[i]);
+                    let (a1, b1) = (build(ta, &x, &rx), build(tb, &y, &ry));
+                    matches!(std::panic::catch_unwind(std::panic::AssertUnwindSafe(|| a1.binary_op(&op_of(op), &b1))), Ok(Err(_)))
+                });
+                Outcome {
+                    sig: Some((
+                        format!("spurious-error:{combo}"),
+                        format!("{combo} on a batch of {n} failed with `{e}` although no row has to fail; e.g. row {:?}",
+                                culprit.map(|i| (show(&va[i]), show(&vb[i])))),
+                    )),
+                    rows: n,
+                    modelled: true,
+                }
             }
         }
         Ok(Ok(out)) => {
